@@ -48,6 +48,7 @@ Inductive event :=
 | Escaped (code : N)            (* an exception left handle_events()/shutdown(); code = exn_code *)
 | AccessLog (c : ctx)           (* HttpProxyPlugin.access_log: the default log line *)
 | UpstreamClose
+| ClientFlush                   (* threaded mode: shutdown() found output pending and ran _flush() first *)
 | ClientShutdown                (* conn.shutdown(SHUT_WR) on the client socket was called (whatever it returned or raised) *)
 | ClientClose.
 
@@ -154,7 +155,10 @@ Definition norm_end {A} (e : chain_end A) : chain_end A :=
 (* ------------------------------------------------------------------ configuration and state *)
 Record config := mkConfig {
   cf_agent : bytes;                 (* PROXY_AGENT_HEADER_VALUE *)
-  cf_disable_headers : list bytes   (* flags.disable_headers *)
+  cf_disable_headers : list bytes;  (* flags.disable_headers *)
+  cf_final_flush : bool             (* `self.selector and self.work.has_buffer()` when shutdown() is entered: threaded mode with output
+                                       still pending.  Not configuration but an input (when output gets flushed is outside this model);
+                                       carried here so that every theorem quantifies over it *)
 }.
 
 Record pstate := mkState {
@@ -422,7 +426,7 @@ Definition on_client_connection_close (ps : list plugin) (st : pstate) (c0 : ctx
    peer reset; any OSError is swallowed) has no influence on them: the outcome of that call is not even an
    input of the model.  An OSError raised by a callback skips conn.shutdown; another exception escapes
    after the close. *)
-Definition shutdown (ps : list plugin) (st : option pstate) (c0 : ctx) (l : log) : log :=
+Definition shutdown_core (ps : list plugin) (st : option pstate) (c0 : ctx) (l : log) : log :=
   match st with
   | None => l ++ [ClientShutdown; ClientClose]
   | Some st =>
@@ -432,6 +436,14 @@ Definition shutdown (ps : list plugin) (st : option pstate) (c0 : ctx) (l : log)
       | Some e => if is_oserror e then l1 ++ [ClientClose] else l1 ++ [ClientClose; Escaped (exn_code e)]
       end
   end.
+
+(* the whole of shutdown(): in threaded mode pending output is flushed FIRST (`if self.selector and
+   self.work.has_buffer(): self._flush()`).  Since fix faabfc0 _flush() tolerates every OSError of the send
+   (BrokenPipeError, ConnectionResetError, EIO ...: "nobody left to flush to"), so whatever happens to the
+   socket during that flush the callbacks below still run; before the fix a reset raised there was swallowed
+   by shutdown()'s own `except OSError` and skipped them all. *)
+Definition shutdown (ps : list plugin) (st : option pstate) (c0 : ctx) (final_flush : bool) (l : log) : log :=
+  shutdown_core ps st c0 (if final_flush then l ++ [ClientFlush] else l).
 
 (* ------------------------------------------------------------------ histories of one connection *)
 Inductive step :=
@@ -487,7 +499,7 @@ Fixpoint run_steps (cf : config) (ps : list plugin) (st : option pstate) (draini
 (* one whole connection: the steps, then shutdown() exactly once (executor: C05/C10) *)
 Definition run_conn (cf : config) (ps : list plugin) (c0 : ctx) (steps : list step) : log :=
   let '(l, st) := run_steps cf ps None false steps [] in
-  shutdown ps st c0 l.
+  shutdown ps st c0 (cf_final_flush cf) l.
 
 (* ------------------------------------------------------------------ observations on logs *)
 Definition is_call_of (hk : hook) (e : event) : bool :=
